@@ -94,12 +94,12 @@ theorem loadEnvFiles_fails_as (penv : List (Key × Str)) (fs : FS) (hwf : WFFS f
         | false => simpa [overrideBy] using ih earlier acc hd hacc
       | dir =>
         simp only [loadMappingFile, hp]
-        by_cases hf : f.format = [] <;> simp [hf, FailsAs]
+        by_cases hf : f.format = [] <;> simp [hf, FailsAs, parseWithFormat, hwf.2 f.format]
       | file ls =>
         simp only [loadMappingFile, hp]
         by_cases hf : f.format = []
         · simp only [hf, ne_eq, not_true_eq_false, if_false]
-          have hfile := parseLines_fails_as_file (envChain penv acc) ls (hwf _ _ hp)
+          have hfile := parseLines_fails_as_file (envChain penv acc) ls (hwf.1 _ _ hp)
           rw [hchain] at hfile ⊢
           cases hpl : parseLines (envLook penv (filesVal penv earlier)) ls [] with
           | error e =>
@@ -114,8 +114,8 @@ theorem loadEnvFiles_fails_as (penv : List (Key × Str)) (fs : FS) (hwf : WFFS f
             have hdv : Distinct vars := parseLines_distinct _ _ _ _ distinct_nil hpl
             apply ih (earlier ++ [ls]) (overrideBy acc vars) (distinct_overrideBy acc vars hd)
             intro n
-            rw [lookup_overrideBy_str n acc vars hdv, lookup_parsed _ _ _ (hwf _ _ hp) hpl, filesVal_snoc, hacc n]
-        · simp [hf, FailsAs]
+            rw [lookup_overrideBy_str n acc vars hdv, lookup_parsed _ _ _ (hwf.1 _ _ hp) hpl, filesVal_snoc, hacc n]
+        · simp [hf, FailsAs, parseWithFormat, hwf.2 f.format]
 
 theorem labelFilesVal_snoc' (files : List (List Line)) (f : List Line) (k : Key) :
     labelFilesVal (files ++ [f]) k = orElse (fileVal (labelFilesVal files) f k) (labelFilesVal files k) :=
@@ -139,7 +139,7 @@ theorem loadLabelFiles_fails_as (fs : FS) (hwf : WFFS fs) (ps : List Str)
       | dir => simp [loadMappingFile, hp, FailsAs]
       | file ls =>
         simp only [loadMappingFile, hp, ne_eq, not_true_eq_false, if_false]
-        have hfile := parseLines_fails_as_file (labelChain acc) ls (hwf _ _ hp)
+        have hfile := parseLines_fails_as_file (labelChain acc) ls (hwf.1 _ _ hp)
         rw [hchain] at hfile ⊢
         cases hpl : parseLines (labelFilesVal earlier) ls [] with
         | error e =>
@@ -154,6 +154,6 @@ theorem loadLabelFiles_fails_as (fs : FS) (hwf : WFFS fs) (ps : List Str)
           have hdv : Distinct vars := parseLines_distinct _ _ _ _ distinct_nil hpl
           apply ih (earlier ++ [ls]) (overrideBy acc vars) (distinct_overrideBy acc vars hd)
           intro n
-          rw [lookup_overrideBy_str n acc vars hdv, lookup_parsed _ _ _ (hwf _ _ hp) hpl, labelFilesVal_snoc, hacc n]
+          rw [lookup_overrideBy_str n acc vars hdv, lookup_parsed _ _ _ (hwf.1 _ _ hp) hpl, labelFilesVal_snoc, hacc n]
 
 end CV.EnvLayers
